@@ -133,13 +133,16 @@ pub fn run_case(case: &Case) -> (Vec<(String, String)>, Info) {
         .filter(|t| t.transaction_type == TransactionType::Normal)
         .map(|t| t.from.iter().filter(|s| s.amount > 0).count())
         .sum();
+    if path.is_empty() {
+        return (v, info);
+    }
     let pts = path.last().unwrap().timestamp;
     let ts = pts + 2 * case.hist.ncfg.heartbeat + 50;
     let for_block = tip_id + 1;
     let (spent, expired) = spent_and_expired(&node, for_block);
     let edits: Vec<TxEdit> = if case.edits.is_empty() {
         let mut e = TX_EDITS.to_vec();
-        e.push(TxEdit::OffChainInput);
+        e.extend(TX_EDITS_EXTRA);
         e
     } else {
         case.edits.clone()
